@@ -115,8 +115,14 @@ Definition dot_name (b : name) (q : mpath) : name := sapp b (dot_join q).
 Definition chk_lower (c : c01b_case) : Z :=
   let d := cb_design c in
   let ld := lower dot_name d in
-  if negb (names_ok dot_name d && pairs_ok d && forallb (bnode_ok d) (cb_terms c)) then 3 else
-  match blabels d (bdesign_fuel d) (cb_terms c), labels ld (bdesign_fuel d) (map (phi dot_name) (cb_terms c)) with
-  | Ok a, Ok b => if zlist_eqb a b then 0 else 3
-  | _, _ => 3
+  if negb (names_ok dot_name d && pairs_ok d) then 3 else
+  (* the decidable hypotheses of C01B_lower_labels: every node on the computed orbits is a node of the design *)
+  match traverse (borbit d (bdesign_fuel d)) (cb_terms c) with
+  | Ok os =>
+      if negb (forallb (forallb (bnode_ok d)) os) then 3 else
+      match blabels d (bdesign_fuel d) (cb_terms c), labels ld (bdesign_fuel d) (map (phi dot_name) (cb_terms c)) with
+      | Ok a, Ok b => if zlist_eqb a b then 0 else 3
+      | _, _ => 3
+      end
+  | Error _ => 3
   end.
